@@ -228,7 +228,7 @@ class C17(core.Check):
     def start_server(self, d, port):
         cmd = [env.PY, '-m', 'yalafi.shell', '--no-config', '--as-server', str(port), '--lt-command',
                '%s -S %s' % (env.PY, shellrun.FAKELT), '--packages', '*,cleveref', '--replace', 'r.txt',
-               '--define', 'd.tex']
+               '--define', 'd.tex', '--lt-options', '~--disable SRVRULE --enablecategories SRVCAT']
         planf = os.path.join(d, 'plan.json')
         if not os.path.exists(planf):
             with open(planf, 'w') as f:
@@ -247,8 +247,24 @@ class C17(core.Check):
         srv.kill()
         return None
 
-    def post(self, port, src, lang):
-        data = urllib.parse.urlencode({'text': src, 'language': lang}).encode('ascii')
+    @staticmethod
+    def lt_calls(d, port):
+        """request log of the fake proofreader of one server lifetime: [{argv, text}]"""
+        fn = os.path.join(d, 'lt%d.log' % port)
+        out = []
+        if os.path.exists(fn):
+            for ln in open(fn, encoding='utf-8'):
+                try:
+                    e = json.loads(ln)
+                except ValueError:
+                    continue
+                # the input file name is a temporary name
+                e['argv'] = [a for a in e.get('argv', []) if not a.startswith('/tmp') and 'tmp' not in a]
+                out.append(e)
+        return out
+
+    def post(self, port, src, lang, fields=None):
+        data = urllib.parse.urlencode(dict({'text': src, 'language': lang}, **(fields or {}))).encode('ascii')
         with urllib.request.urlopen('http://localhost:%d/v2/check' % port, data=data, timeout=120) as rp:
             ms = json.loads(rp.read().decode('utf-8'))['matches']
         return [(m['offset'], m['length'], m['message'].split(':', 1)[1]) for m in ms]
@@ -271,17 +287,23 @@ class C17(core.Check):
                 with open(os.path.join(d, fn), 'w') as f:
                     f.write(content)
             base = []
-            for name, src, opts, ml in items:
+            # some requests carry rule options of their own (they override the start-up --lt-options for this
+            # request only)
+            fields = [rnd.choice([None, None, {'disabledRules': 'REQRULE%d' % k}, {'enabledCategories': 'REQCAT'},
+                                  {'disabledRules': 'REQA,REQB', 'enabledRules': 'REQE'}]) for k in range(len(items))]
+            base_argv = []
+            for k, (name, src, opts, ml) in enumerate(items):
                 port = free_port()
                 srv = self.start_server(d, port)
                 if srv is None:
                     return dict(ok=True, nt=False, key=None, cnt={'server_not_up': 1}, obs=None,
                                 harness_error='server did not come up')
                 try:
-                    base.append(self.post(port, src, 'en-GB'))
+                    base.append(self.post(port, src, 'en-GB', fields[k]))
                 finally:
                     srv.terminate()
                     srv.wait(timeout=10)
+                base_argv.append(self.lt_calls(d, port))
             port = free_port()
             srv = self.start_server(d, port)
             if srv is None:
@@ -291,12 +313,13 @@ class C17(core.Check):
                 order = list(range(len(items))) + [rnd.randrange(len(items)) for _ in range(6)]
                 if case['concurrent']:
                     with concurrent.futures.ThreadPoolExecutor(8) as ex:
-                        got = list(ex.map(lambda i: (i, self.post(port, items[i][1], 'en-GB')), order))
+                        got = list(ex.map(lambda i: (i, self.post(port, items[i][1], 'en-GB', fields[i])), order))
                 else:
-                    got = [(i, self.post(port, items[i][1], 'en-GB')) for i in order]
+                    got = [(i, self.post(port, items[i][1], 'en-GB', fields[i])) for i in order]
             finally:
                 srv.terminate()
                 srv.wait(timeout=10)
+            seq_argv = self.lt_calls(d, port)
         finally:
             shutil.rmtree(d, ignore_errors=True)
         for pos, (i, res) in enumerate(got):
@@ -305,13 +328,27 @@ class C17(core.Check):
                             obs=None, detail=dict(request=items[i][0], position=pos,
                                                   history=[items[j][0] for j, _ in got[:pos]],
                                                   in_sequence=res, fresh_server=base[i], src=items[i][1]))
+        # what the proofreader was called with: per submitted text the same options as on a fresh server
+        want = {}
+        for k, calls in enumerate(base_argv):
+            for cl in calls:
+                want.setdefault(cl['text'], set()).add(json.dumps(cl['argv']))
+        for cl in seq_argv:
+            if cl['text'] in want and json.dumps(cl['argv']) not in want[cl['text']]:
+                return dict(ok=False, nt=True, key='server:history-dependent:proofreader-options', cnt=cnt, obs=None,
+                            detail=dict(text=cl['text'][:200], in_sequence=cl['argv'],
+                                        fresh_server=sorted(want[cl['text']]), fields=fields,
+                                        requests=[items[i][0] for i, _ in got]))
+        cnt['server_proofreader_calls_compared'] = len(seq_argv)
+        if any(fields):
+            cnt['server_requests_with_rule_fields'] = sum(1 for i, _ in got if fields[i])
         cnt['server_requests_compared'] = len(got)
         if case['concurrent']:
             cnt['server_concurrent_runs'] = 1
         return dict(ok=True, nt=True, key=None, cnt=cnt, obs=dict(requests=[items[i][0] for i, _ in got][:10]))
 
     def quotas(self, tier):
-        return {'fam_seq': 150, 'calls_in_sequences': 2000, 'baselines': 1000, 'fresh_process_runs': 300, 'server_requests_compared': 30,
+        return {'fam_seq': 150, 'calls_in_sequences': 2000, 'baselines': 1000, 'fresh_process_runs': 300, 'server_requests_compared': 30, 'server_proofreader_calls_compared': 30, 'server_requests_with_rule_fields': 10,
                 'server_concurrent_runs': 1, 'tpl_gls': 20, 'tpl_def': 20, 'tpl_cref': 20, 'tpl_pack': 20,
                 'tpl_formulas': 20, 'tpl_babel': 20}
 
